@@ -183,6 +183,40 @@ def c14(c):
                     "monitor in TLC (Trace_Monitor!Isolation); conformance of the values with the state machine is C13's business; distinct = bus transitions")
 
 
+# --------------------------------------------------------------------------- C08
+def c08(c):
+    cfgs = ["thorough", "thorough_auto", "thorough_tiny"] if c.tier == "thorough" else ["quick", "quick_auto"]
+    for cfg in cfgs:
+        c.mc("MC_System", "MC_System_%s.cfg" % cfg, workers=10, timeout=3000, coverage=(c.tier == "quick"))
+    # prior states: one witness path per distinct state of the virtual-sign model (both flip styles)
+    graphs = []
+    for cfg in (["quick", "quick_auto"] if c.tier == "quick" else ["thorough", "thorough_auto"]):
+        d = vlib.workdir(c.prop, "gen_" + cfg)
+        path = os.path.join(d, "graph.ndjson")
+        with open(path, "w") as sink:
+            if c.tier == "quick":
+                c.mc("MC_VSign", "MC_VSign_%s.cfg" % cfg, workers=10, timeout=3000, gen_tag="GEN", gen_sink=sink, coverage=False)
+            else:
+                c.mc("MC_VSign", "MC_VSign_%s.cfg" % cfg.replace("thorough", "c08"), workers=10, timeout=3000, gen_tag="GEN", gen_sink=sink, coverage=False)
+        graphs.append(path)
+    shards = 16 if c.tier == "thorough" else 8
+    files, n, out = vlib.record("C08", c.tier, c.seed, shards, extra=graphs)
+    for g in graphs:
+        os.remove(g)
+    c.details["recorder"] = out.strip().splitlines()[0][:500]
+    c.validate("Trace_C08", "Trace_C08.cfg", files, ["record", "C08"], procs=PROCS, timeout=3000, key_fn=ctl_key("C08"))
+    c.assumptions += ["the virtual sign is the system under control; prior states are (a) every distinct state of the bounded virtual-sign model, reached on a "
+                      "real VirtualSign by TLC's witness path, and (b) states reached by random walks over the wide alphabet on real sizes",
+                      "configure-if-needed is only called when the sign is not in a ready-to-receive state or records the same type (its contract)",
+                      "all 11 sign types, both flip styles, addresses {3,0,1,0x7F,0xFF,0x100,0xFFFF,0x1234,random}, page lists of 0..4 pages with random pixels"]
+    return c.finish("model_checking",
+                    "M: Controller o Bus composed in TLA+; from every state a chaos phase can drive the sign into (bounded), configure / configure-if-needed and "
+                    "then bounded sequences of send-pages, show, load-next and re-configure are run exchange by exchange and the C08 postconditions are "
+                    "invariants at every return; G->V: TLC's witness paths put a real VirtualSign into each model state, the real Sign then runs a program of "
+                    "calls on it, and TLC evaluates the same postconditions (System!Post*) on the recorded outcomes and projections; "
+                    "distinct = controller calls")
+
+
 # --------------------------------------------------------------------------- C09 / C10 / C11
 def ctl_cfgs(tier):
     base = ["configure", "configure_b", "configure_c", "send_pages", "show", "load", "shut_down"]
@@ -276,4 +310,4 @@ def c09(c):
                     "the recorded conversations are checked by the same monitor in TLC; distinct = conversations")
 
 
-CHECKS = {"C09": c09, "C10": c10, "C11": c11, "C12": c12, "C13": c13, "C14": c14, "C01": c01, "C02": c02, "C03": c03, "C04": c04, "C05": c05}
+CHECKS = {"C08": c08, "C09": c09, "C10": c10, "C11": c11, "C12": c12, "C13": c13, "C14": c14, "C01": c01, "C02": c02, "C03": c03, "C04": c04, "C05": c05}
